@@ -225,6 +225,8 @@ def c07(a):
         # of a tiny universe (gaps, folds, set-backs across midnight at a month end) x every ordered pair of probes
         c.add_mc(tlc_mc("MC_ZonedUntil.tla", "MC_ZonedUntil.cfg" if a.tier == "quick" else "MC_ZonedUntil_thorough.cfg",
                         os.path.join(workdir("C07", False), "mc")))
+        # ... and the same for the civil difference: every ordered pair of dates of a 15-month window x largest unit
+        c.add_mc(tlc_mc("MC_CivilUntil.tla", "MC_CivilUntil.cfg", os.path.join(workdir("C07", False), "mc2")))
     drive_and_validate(c, a, binary, "c07", "Trace_Civil.tla")
     # zoned differences: same law on zoned values (driver zd.rs)
     zoned_part(c, a, binary, "c07z")
